@@ -236,8 +236,10 @@ def run(ctx, lean_ok):
         else:
             lines.append(req('Eos.volTransUser', T, e['C_pen'], e['C_pen_T']))
         lines.append(req('Eos.density', T, P, zg, yk, e['Mol_wt'], vt))
+        lines.append(req('Eos.fugacity', float(A), float(B), Ap, Bp, yk, P, zl))          # liquid row
+        lines.append(req('Eos.density', T, P, zl, yk, e['Mol_wt'], vt))
         recs.append((case, [float(A), float(B)] + list(Ap) + list(Bp) + list(yk), [zg, zl], list(fug[0]), list(vt), float(rho[0, 0]),
-                     e['calc_delta'] > 0))
+                     e['calc_delta'] > 0, list(fug[1]), float(rho[1, 0])))
 
     if F is not None:
         F.close()
@@ -254,9 +256,9 @@ def run(ctx, lean_ok):
 
     out = run_driver(ctx, 'C01', lines) if lean_ok else None
     if out is not None:
-        bad = {'coefs': 0, 'selectZ': 0, 'fugacity': 0, 'volume_trans': 0, 'density': 0}
-        for i, (case, cf, zz, fg, vt, rho0, gc) in enumerate(recs):
-            o = out[5 * i:5 * i + 5]
+        bad = {'coefs': 0, 'selectZ': 0, 'fugacity': 0, 'volume_trans': 0, 'density': 0, 'fugacity(liquid row)': 0, 'density(liquid row)': 0}
+        for i, (case, cf, zz, fg, vt, rho0, gc, fgl, rho1) in enumerate(recs):
+            o = out[7 * i:7 * i + 7]
 
             def fl(x):
                 res = []
@@ -264,9 +266,9 @@ def run(ctx, lean_ok):
                     res += a if isinstance(a, list) else [a]
                 return res
             got = [fl(x) if isinstance(x, list) else None for x in o]
-            exp = [cf, zz, fg, vt, [rho0]]
+            exp = [cf, zz, fg, vt, [rho0], fgl, [rho1]]
             # the group-contribution sum is a 225-term sum with cancellation: looser tolerance there
-            tols = [1e-9 if gc else TOL['gen_vs_source'], 0.0, 1e-10, TOL['gen_vs_source'], 1e-10]
+            tols = [1e-9 if gc else TOL['gen_vs_source'], 0.0, 1e-10, TOL['gen_vs_source'], 1e-10, 1e-10, 1e-10]
             for k, nm in enumerate(bad):
                 if got[k] is None or not close(got[k], exp[k], tols[k]) and not (tols[k] == 0.0 and got[k] == exp[k]):
                     bad[nm] += 1
